@@ -86,11 +86,18 @@ def do_import(srcroot, only=()):
             (dst / "meta.json").write_text(json.dumps(meta, indent=1))
 
 
-def do_run(ids, extra=False):
+def do_run(ids, extra=False, worktree=False):
+    """worktree=True: preliminary run in the property's scratch worktree /tmp/seed-<pid> (VERIF_REPO), so that several
+    properties can be evaluated in parallel while /repo is busy; the recorded run is the one on /repo itself"""
+    import os
     dirs = sorted(SEEDED.iterdir()) if not ids else [SEEDED / i for i in ids]
     for d in dirs:
         meta = json.loads((d / "meta.json").read_text())
         pid = meta["property"]
+        REPO = f"/tmp/seed-{pid}" if worktree else "/repo"
+        if worktree:
+            sh(["git", "checkout", "--", "."], cwd=REPO)
+            sh(["git", "merge", "--ff-only", "main"], cwd=REPO)
         rc, o = sh(["git", "status", "--short"], cwd=REPO)
         if o.strip():
             print("refusing: /repo is not clean", o)
@@ -103,7 +110,7 @@ def do_run(ids, extra=False):
         try:
             pids = [pid] + ([p for p in meta.get("also_check", [])] if extra else [])
             for p in pids:
-                rc, o = sh(["./check", p], cwd=ROOT, timeout=1800)
+                rc, o = sh(["./check", p], cwd=ROOT, timeout=1800, env=dict(os.environ, VERIF_REPO=REPO))
                 lines = [l for l in o.split("\n") if l.startswith("VIOLATION") or l.startswith(f"[{p}]")]
                 viol = [l for l in lines if l.startswith("VIOLATION")]
                 info = {"exit": rc, "violation": viol[0] if viol else None, "summary": (lines[-1] if lines else o[-200:])}
@@ -119,6 +126,7 @@ def do_run(ids, extra=False):
         finally:
             sh(["git", "checkout", "--", "."], cwd=REPO)
         meta["check_results"] = results
+        meta["checked_on"] = REPO
         meta["caught"] = bool(results.get(pid, {}).get("violation"))
         (d / "meta.json").write_text(json.dumps(meta, indent=1))
         print(d.name, "CAUGHT" if meta["caught"] else "MISSED", json.dumps(results)[:400], flush=True)
@@ -142,6 +150,6 @@ if __name__ == "__main__":
         do_import(sys.argv[2], sys.argv[3:])
     elif cmd == "run":
         a = [x for x in sys.argv[2:] if not x.startswith("--")]
-        do_run(a, extra="--extra" in sys.argv)
+        do_run(a, extra="--extra" in sys.argv, worktree="--worktree" in sys.argv)
     elif cmd == "table":
         do_table()
